@@ -64,11 +64,11 @@ func (x *Exec) complex(st *State, fr *Frame, in ssa.Instruction, b *ssa.BasicBlo
 		x.doCall(st, fr, in, &in.Call, fnv, args,
 			func(s *State, res []*Val) {
 				if len(res) == 1 {
-					x.setVal(st, fr, in, res[0])
+					x.setVal(s, fr, in, res[0])
 				} else if len(res) > 1 {
-					x.setVal(st, fr, in, &Val{T: in.Type(), K: KTuple, Fs: res})
+					x.setVal(s, fr, in, &Val{T: in.Type(), K: KTuple, Fs: res})
 				} else {
-					x.setVal(st, fr, in, &Val{T: in.Type(), K: KTuple})
+					x.setVal(s, fr, in, &Val{T: in.Type(), K: KTuple})
 				}
 				next(s)
 			},
